@@ -77,11 +77,11 @@ package dnsutils
 //@   oncall ReadFull: nRead = nRead + 1
 //@   modifies nothing
 //@   ensures err == nil ==> m != nil && fresh(m) && wfMsg(m) && freshElems(m)
-//@   ensures [C13:consumed-exactly-one-frame] err == nil ==> nRead == 2 && n == 2 + flen
+//@   ensures [C13,C05,C06:consumed-exactly-one-frame] err == nil ==> nRead == 2 && n == 2 + flen
 //@   ensures err != nil ==> m == nil
-//@   callsite ReadFull: [C13:prefix-then-exactly-the-body] (nRead == 0 ? len(arg1) == 2 : len(arg1) == int(BE16(hdrBuf, 0))) && fresh(arg1)
-//@   callsite ReadFull: [C13:read-from-the-callers-stream] arg0 == c
-//@   callsite UnpackMsg: [C13:decodes-the-whole-frame] nRead == 2 && len(arg0) == int(BE16(hdrBuf, 0))
+//@   callsite ReadFull: [C13,C05,C06:prefix-then-exactly-the-body] (nRead == 0 ? len(arg1) == 2 : len(arg1) == int(BE16(hdrBuf, 0))) && fresh(arg1)
+//@   callsite ReadFull: [C13,C05,C06:read-from-the-callers-stream] arg0 == c
+//@   callsite UnpackMsg: [C13,C05,C06:decodes-the-whole-frame] nRead == 2 && len(arg0) == int(BE16(hdrBuf, 0))
 //@   onassign length: flen = int(length)
 
 // ReadMsgFromUDP: one datagram, decoded from exactly the bytes read.
